@@ -10,6 +10,7 @@ import (
 	gredis "github.com/acquirecloud/golibs/kvs/redis"
 	"github.com/acquirecloud/golibs/timeout"
 	"github.com/acquirecloud/golibs/ulidutils"
+	ulid "github.com/oklog/ulid/v2"
 
 	"verifharness/sim"
 	"verifharness/worlds/blocks"
@@ -25,11 +26,11 @@ type worldDef struct {
 }
 
 var worlds = map[string]worldDef{
-	"timer": {New: timer.New, Generate: timer.Generate},
-	"lock":  {New: lock.New, Generate: lock.Generate},
-	"kv":    {New: kv.New, Generate: kv.Generate},
+	"timer":  {New: timer.New, Generate: timer.Generate},
+	"lock":   {New: lock.New, Generate: lock.Generate},
+	"kv":     {New: kv.New, Generate: kv.Generate},
 	"blocks": {New: blocks.New, Generate: blocks.Generate},
-	"lru":   {New: lru.New, Generate: lru.Generate},
+	"lru":    {New: lru.New, Generate: lru.Generate},
 }
 
 func init() {
@@ -45,5 +46,6 @@ func init() {
 		gredis.ZverifReinitClockVars()
 		timeout.ZverifReinitClockVars()
 		ulidutils.ZverifReinitClockVars()
+		ulid.ZverifReinitClockVars() // the rewritten dependency (R10): its lazily initialised entropy source starts afresh in every run
 	}
 }
